@@ -1,6 +1,6 @@
 (* The handlers of Oom.Handlers are safe (Proofs.OomGeneric.safe) on every
    request class that Spec.OomSpec.uncovered does not exclude. *)
-From DV Require Import Spec.OomSpec Proofs.OomGeneric Proofs.OomLists.
+From DV Require Import Spec.OomSpec Proofs.OomGeneric Proofs.OomLists Proofs.OomInv.
 Local Open Scope N_scope.
 
 (* ---- programs that only allocate, stage and read ----------------------------------- *)
@@ -106,6 +106,34 @@ Section Undo.
       rewrite (set_queue_undo _ _ _ _ El). destruct b; reflexivity.
   Qed.
 
+  Lemma undo_remove_primary k b' hs :
+    inv b -> do_action (ARemovePrimary k) b = Some (b', hs) -> cancel_all hs b' = Some b.
+  Proof.
+    intros Hinv. simpl. destruct (lookup (b_services b) k) as [[|p rest]|] eqn:El; try discriminate.
+    intros H; inversion H; subst; clear H. destruct Hinv as [_ Hkeys].
+    simpl. unfold restore_ownership. destruct rest as [|n r]; simpl.
+    - rewrite (lookup_del_same _ _ Hkeys).
+      replace (insert_at (slot_of (b_services b) k) (k, [p]) (del_service (b_services b) k)) with (b_services b)
+        by (symmetry; apply (insert_at_slot _ _ _ El)).
+      destruct b; reflexivity.
+    - rewrite (lookup_set_queue _ _ _ _ El). simpl. rewrite N.eqb_refl.
+      rewrite (set_queue_undo _ _ _ _ El). destruct b; reflexivity.
+  Qed.
+
+  Lemma undo_swap k b' hs :
+    inv b -> do_action (ASwap k) b = Some (b', hs) -> cancel_all hs b' = Some b.
+  Proof.
+    intros Hinv. simpl. destruct (lookup (b_services b) k) as [[|p [|n rest]]|] eqn:El; try discriminate.
+    intros H; inversion H; subst; clear H.
+    destruct (inv_lookup _ _ _ Hinv El) as (_ & _ & Hnd). simpl in Hnd.
+    inversion Hnd as [|? ? Hp Hnd2]; subst. inversion Hnd2 as [|? ? Hn Hnd3]; subst.
+    simpl. unfold restore_ownership. simpl. rewrite (lookup_set_queue _ _ _ _ El).
+    assert (Hrest : existsb (is_conn (o_conn p)) rest = false) by (apply notin_existsb_conn; intros Hx; apply Hp; right; exact Hx).
+    assert (Hpp : is_conn (o_conn p) p = true) by (unfold is_conn; apply N.eqb_refl).
+    rewrite (remove_last_second (is_conn (o_conn p)) n p rest Hpp Hrest).
+    simpl. rewrite N.eqb_refl. rewrite (set_queue_undo _ _ _ _ El). destruct b; reflexivity.
+  Qed.
+
   Lemma undo_add_rule c r b' hs :
     do_action (AAddRule c r) b = Some (b', hs) -> cancel_all hs b' = Some b.
   Proof.
@@ -169,8 +197,8 @@ Proof.
   intros Hf. unfold not_yet. destruct (c_active cn); [|constructor].
   unfold remove_match.
   apply safe_bind_pure; [apply pure_allocs|]. intros _.
-  apply safe_bind_pure; [apply pure_send_ack|]. intros _.
   destruct (existsb (N.eqb r) (c_rules cn)) eqn:Ex; [|constructor].
+  apply safe_bind_pure; [apply pure_send_ack|]. intros _.
   unfold act. eapply safe_last. simpl. rewrite Hf, Ex. reflexivity.
 Qed.
 
@@ -184,8 +212,8 @@ Lemma safe_call b0 c d tag :
 Proof.
   intros Hinv. unfold call, get. simpl. constructor.
   destruct (lookup (b_services b0) (dest_key d)) as [[|p q]|] eqn:El.
-  - destruct (inv_lookup _ _ _ Hinv El) as [Hne _]. congruence.
-  - destruct (inv_lookup _ _ _ Hinv El) as [_ Hlive]. simpl in Hlive. apply andb_true_iff in Hlive. destruct Hlive as [Hp _].
+  - destruct (inv_lookup _ _ _ Hinv El) as (Hne & _). congruence.
+  - destruct (inv_lookup _ _ _ Hinv El) as (_ & Hlive & _). simpl in Hlive. apply andb_true_iff in Hlive. destruct Hlive as [Hp _].
     rewrite Hp. simpl.
     destruct (existsb (pend_eqb (mkPend c (o_conn p) tag)) (b_pending b0)); [constructor|].
     destruct (b_maxreplies b0 <=? count_caller (b_pending b0) c); [constructor|].
@@ -201,6 +229,43 @@ Qed.
 Lemma safe_hello_again b0 cn : c_active cn = true -> safe R b0 b0 [] (hello cn).
 Proof. intros H. unfold hello. rewrite H. constructor. Qed.
 
+Lemma pure_send_lost c k : pure (send_lost c k).
+Proof. unfold send_lost. apply pure_bind; [apply pure_allocs|]. intros _. apply pure_send_from_driver. Qed.
+
+(* bus_service_remove_owner on the primary owner, followed by anything that changes no state *)
+Lemma safe_remove_primary B b0 b hs k p rest (cont : unit -> prog B) :
+  inv b -> lookup (b_services b) k = Some (p :: rest) -> undoes R b0 hs b -> (forall u, pure (cont u)) ->
+  safe R b0 b hs (bind (remove_owner k (p :: rest) (o_conn p)) cont).
+Proof.
+  intros Hinv El Hun Hc. unfold remove_owner. rewrite N.eqb_refl.
+  apply safe_bind_assoc. apply safe_bind_pure; [apply pure_send_lost|]. intros _.
+  apply safe_bind_assoc. apply safe_bind_pure.
+  { destruct rest; [apply pure_send_noc|]. apply pure_bind; [apply pure_send_noc|]. intros _. apply pure_send_acquired. }
+  intros _. unfold add_restore, act. simpl. repeat apply safe_alloc.
+  destruct (do_action (ARemovePrimary k) b) as [[b' hs']|] eqn:Ed.
+  - eapply safe_act; [exact Ed| |].
+    + apply (undoes_step R b0 hs hs' b b'); [apply (undo_remove_primary b k b' hs' Hinv Ed)|exact Hun].
+    + apply pure_safe. apply Hc.
+  - simpl in Ed. rewrite El in Ed. discriminate.
+Qed.
+
+(* bus_service_swap_owner *)
+Lemma safe_swap_primary B b0 b hs k p n rest (cont : unit -> prog B) :
+  inv b -> lookup (b_services b) k = Some (p :: n :: rest) -> undoes R b0 hs b -> (forall u, pure (cont u)) ->
+  safe R b0 b hs (bind (swap_owner k (p :: n :: rest) (o_conn p)) cont).
+Proof.
+  intros Hinv El Hun Hc. unfold swap_owner. rewrite N.eqb_refl.
+  apply safe_bind_assoc. apply safe_bind_pure; [apply pure_send_lost|]. intros _.
+  apply safe_bind_assoc. apply safe_bind_pure; [apply pure_send_noc|]. intros _.
+  apply safe_bind_assoc. apply safe_bind_pure; [apply pure_send_acquired|]. intros _.
+  unfold add_restore, act. simpl. repeat apply safe_alloc.
+  destruct (do_action (ASwap k) b) as [[b' hs']|] eqn:Ed.
+  - eapply safe_act; [exact Ed| |].
+    + apply (undoes_step R b0 hs hs' b b'); [apply (undo_swap b k b' hs' Hinv Ed)|exact Hun].
+    + apply pure_safe. apply Hc.
+  - simpl in Ed. rewrite El in Ed. discriminate.
+Qed.
+
 (* ReleaseName, covered classes *)
 Lemma safe_release b0 cn name :
   inv b0 ->
@@ -213,9 +278,16 @@ Proof.
   unfold release_name, release_service.
   destruct (name_refused name) eqn:Er; [constructor|]. simpl in Hun.
   unfold get. simpl. constructor.
-  destruct (lookup (b_services b0) (KW name)) as [q|] eqn:El.
-  - destruct (inv_lookup _ _ _ Hinv El) as [_ Hlive]. unfold all_live. rewrite Hlive. simpl.
-    destruct (find_owner q (c_id cn)); [discriminate|]. simpl. apply pure_safe. apply pure_send_reply.
+  destruct (lookup (b_services b0) (KW name)) as [[|p rest]|] eqn:El.
+  - destruct (inv_lookup _ _ _ Hinv El) as (Hne & _). congruence.
+  - destruct (inv_lookup _ _ _ Hinv El) as (_ & Hlive & _). unfold all_live. rewrite Hlive. cbn [negb].
+    destruct (o_conn p =? c_id cn) eqn:Ep.
+    + (* the owner lets go of the name *)
+      apply N.eqb_eq in Ep. rewrite <- Ep. simpl find_owner. rewrite N.eqb_refl.
+      apply safe_bind_assoc. apply safe_remove_primary; auto; [apply undoes_eq|].
+      intros u. simpl. apply pure_send_reply.
+    + simpl find_owner in *. rewrite Ep in *.
+      destruct (find_owner rest (c_id cn)); [discriminate|]. simpl. apply pure_safe. apply pure_send_reply.
   - simpl. apply pure_safe. apply pure_send_reply.
 Qed.
 
@@ -231,10 +303,11 @@ Proof.
   unfold request_name, acquire_service.
   destruct (name_refused name) eqn:Er; [constructor|]. simpl in Hun.
   unfold get. simpl. constructor.
-  destruct (b_maxnames b0 <=? nlen (c_owned cn)) eqn:Elim; [constructor|].
+  destruct ((b_maxnames b0 <=? nlen (c_owned cn)) && negb (in_queue (b_services b0) (KW name) (c_id cn))) eqn:Elim; [constructor|].
+  simpl in Hun.
   destruct (lookup (b_services b0) (KW name)) as [[|p w]|] eqn:El.
-  - destruct (inv_lookup _ _ _ Hinv El) as [Hne _]. congruence.
-  - destruct (inv_lookup _ _ _ Hinv El) as [_ Hlive]. unfold all_live. rewrite Hlive. simpl negb. cbv iota.
+  - destruct (inv_lookup _ _ _ Hinv El) as (Hne & _). congruence.
+  - destruct (inv_lookup _ _ _ Hinv El) as (_ & Hlive & _). unfold all_live. rewrite Hlive. simpl negb. cbv iota.
     destruct (o_conn p =? c_id cn) eqn:Eown.
     + (* the caller owns the name and asks for the flags it already has *)
       apply negb_false_iff in Hun. simpl.
@@ -247,7 +320,25 @@ Proof.
       * (* EXISTS *)
         destruct (find_owner (p :: w) (c_id cn)) eqn:Efo; [discriminate|].
         simpl. apply pure_safe. apply pure_send_reply.
-      * destruct (negb (has_flag flags DBUS_NAME_FLAG_DO_NOT_QUEUE) && (negb (has_flag flags DBUS_NAME_FLAG_REPLACE_EXISTING) || negb (o_allow p))) eqn:Eq; [|discriminate].
+      * destruct (negb (has_flag flags DBUS_NAME_FLAG_DO_NOT_QUEUE) && (negb (has_flag flags DBUS_NAME_FLAG_REPLACE_EXISTING) || negb (o_allow p))) eqn:Eq; cycle 1.
+        { (* the owner is replaced: the caller is queued behind it, then the owner is removed or swapped *)
+          destruct (find_owner (p :: w) (c_id cn)) as [o|] eqn:Efo; [discriminate|].
+          assert (Hrepl : has_flag flags DBUS_NAME_FLAG_REPLACE_EXISTING = true).
+          { destruct (has_flag flags DBUS_NAME_FLAG_DO_NOT_QUEUE), (has_flag flags DBUS_NAME_FLAG_REPLACE_EXISTING), (o_allow p); simpl in *; congruence. }
+          unfold add_owner. rewrite Efo. simpl. repeat apply safe_alloc.
+          destruct (do_action (AAddOwner (KW name) (c_id cn) flags) b0) as [[b1 hs1]|] eqn:Ed; cycle 1.
+          { simpl in Ed. rewrite El, Efo in Ed. discriminate. }
+          assert (Hun1 : undoes R b0 (hs1 ++ []) b1).
+          { rewrite app_nil_r. exists b0; split; [apply (undo_add_owner b0 _ _ _ _ _ Ed)|apply Rrefl]. }
+          pose proof (do_action_inv _ _ _ _ Hinv Ed) as Hinv1.
+          assert (El1 : lookup (b_services b1) (KW name) = Some (p :: new_owner (c_id cn) flags :: w)).
+          { simpl in Ed. rewrite El, Efo, Hrepl in Ed. inversion Ed; subst. simpl. apply (lookup_set_queue _ _ _ _ El). }
+          eapply safe_act; [exact Ed|exact Hun1|].
+          apply safe_get. rewrite El1.
+          apply safe_bind_assoc.
+          destruct (o_dnq p).
+          - apply safe_remove_primary; auto. intros u. simpl. apply pure_send_reply.
+          - apply safe_swap_primary; auto. intros u. simpl. apply pure_send_reply. }
         (* IN_QUEUE *)
         unfold add_owner.
         destruct (find_owner (p :: w) (c_id cn)) as [o|] eqn:Efo.
@@ -280,8 +371,8 @@ Lemma safe_reply b0 c j tag ie :
 Proof.
   intros Hinv. unfold reply, get. simpl. constructor.
   destruct (lookup (b_services b0) (KU j)) as [[|p q]|] eqn:El.
-  - destruct (inv_lookup _ _ _ Hinv El) as [Hne _]. congruence.
-  - destruct (inv_lookup _ _ _ Hinv El) as [_ Hlive]. simpl in Hlive. apply andb_true_iff in Hlive. destruct Hlive as [Hp _].
+  - destruct (inv_lookup _ _ _ Hinv El) as (Hne & _). congruence.
+  - destruct (inv_lookup _ _ _ Hinv El) as (_ & Hlive & _). simpl in Hlive. apply andb_true_iff in Hlive. destruct Hlive as [Hp _].
     rewrite Hp. simpl.
     destruct (existsb (pend_eqb (mkPend (o_conn p) c tag)) (b_pending b0)) eqn:Ex; [|constructor].
     repeat apply safe_alloc.
